@@ -134,6 +134,7 @@ struct TableDump {
     std::vector<ref::ItemSet> items;          // per state, in (source rule, dot, lookahead) coordinates
     std::vector<CellDump> cells;              // nstates x ncols
     std::vector<int> max_sit;                 // highest situation count in any per-state vector
+    int nlex = 0; std::vector<uint16_t> lex_trans, lex_rec;   // the generated lexer's table (nlex x 256 transitions, first recognised term per state)
     const CellDump& at(int s, int col) const { return cells[(size_t)s * ncols + col]; }
 };
 
@@ -291,6 +292,11 @@ struct Frame<NT_, T_, std::integer_sequence<int, N...>, std::integer_sequence<in
                 const auto& e = p->parse_table[s][c];
                 d.cells[(size_t)s * d.ncols + c] = CellDump{uint8_t(e.kind), e.arg, e.has_sr_conflict, int16_t(e.arg < P::rule_count ? p->gi.rule_infos[e.arg].r_idx : -1)};
             }
+        }
+        d.nlex = 0; d.lex_trans.clear(); d.lex_rec.clear();
+        if constexpr (!Custom) {
+            d.nlex = (int)p->lexer_sm.size();
+            for (int s = 0; s < d.nlex; ++s) { d.lex_rec.push_back(p->lexer_sm[s].conflicted_recognition[0]); for (int c = 0; c < 256; ++c) d.lex_trans.push_back(p->lexer_sm[s].transitions[c]); }
         }
     }
 
